@@ -342,7 +342,7 @@ async def _run(case: dict) -> dict:
         executor = StreamFlowExecutor(workflow)
         t0 = time.time()
         try:
-            await asyncio.wait_for(executor.run(), case.get("timeout", 600))
+            await asyncio.wait_for(executor.run(), case.get("timeout", 180))
             res["outcome"] = "ok"
         except asyncio.TimeoutError:
             res["outcome"] = "hang"
@@ -411,7 +411,22 @@ def run_case(case: dict) -> dict:
     try:
         if case.get("lseed") is not None:
             from sfv.rt.loop import run_controlled
-            return run_controlled(lambda: _run(case), case["lseed"], timeout=case.get("timeout", 600) + 60)
+            return run_controlled(lambda: _run(case), case["lseed"], timeout=case.get("timeout", 180) + 60)
         return asyncio.run(_run(case))
     finally:
         shutil.rmtree(root, ignore_errors=True)
+
+
+def run_cases(cases: list, timeout: float = 300, workers: int = 6):
+    """pmap over `run_case`; a case whose worker gave no result in time is retried once in a fresh worker (a stuck worker
+    process — e.g. a thread of the sqlite layer surviving the event loop — is infrastructure, a hang that repeats is a result)"""
+    from sfv.rt.par import pmap
+    again = []
+    for case, status, r in pmap(run_case, cases, timeout=timeout, workers=workers):
+        if status == "timeout":
+            again.append(case)
+        else:
+            yield case, status, r
+    if again:
+        for case, status, r in pmap(run_case, again, timeout=timeout, workers=min(workers, len(again))):
+            yield case, status, r
